@@ -376,6 +376,46 @@ func c27R34(c *Ctx) {
 					}
 				}
 				r.Check(okAppend, "C27.R4", key, p, "tail append under the lock", "pending queue modified other than by a tail append (arrival order not preserved)")
+				if okAppend {
+					// what is queued must not alias the function's []byte parameter: readLoop hands dispatch a slice of its one
+					// reusable read buffer, so a queued alias is overwritten by the next datagram
+					call := ast.Unparen(as.Rhs[i]).(*ast.CallExpr)
+					g := c.P.GraphOf(fi)
+					params := map[*types.Var]bool{}
+					if sig, ok := fi.Obj.Type().(*types.Signature); ok {
+						for k := 0; k < sig.Params().Len(); k++ {
+							if sl, ok := sig.Params().At(k).Type().Underlying().(*types.Slice); ok && types.Identical(sl.Elem(), types.Typ[types.Byte]) {
+								params[sig.Params().At(k)] = true
+							}
+						}
+					}
+					var alias func(e ast.Expr, depth int) bool
+					alias = func(e ast.Expr, depth int) bool {
+						switch v := ast.Unparen(e).(type) {
+						case *ast.Ident:
+							vv := core.VarOf(info, v)
+							if params[vv] {
+								return true
+							}
+							if vv != nil && depth < 3 {
+								if rhs, _ := g.UniqueDef(vv); rhs != nil {
+									return alias(rhs, depth+1)
+								}
+							}
+						case *ast.SliceExpr:
+							return alias(v.X, depth)
+						}
+						return false
+					}
+					aliased := false
+					for _, a := range call.Args[1:] {
+						if alias(a, 0) {
+							aliased = true
+						}
+					}
+					r.Check(!aliased, "C27.R4", "pendingPackets-append|in:"+fi.Name()+"|queues-a-private-copy", p, "the queued datagram is a copy, not the caller's buffer",
+						"the pending queue keeps the caller's buffer itself (no copy): readLoop re-uses one read buffer, so every queued datagram is overwritten by the next one read and is delivered with the wrong bytes / to the wrong endpoint")
+				}
 			}
 		}
 	}
